@@ -31,7 +31,8 @@ class C17(Prop):
     quick_cases = 2000
     thorough_cases = 100000
     rule = ("pairs of nested dicts (depth<=5, dotted keys, None/list/bool/empty-dict values, None arguments) "
-            "generated from the seed, the override built to collide with the original; thorough adds all pairs of "
+            "generated from the seed, the override built to collide with the original, 30% of the eligible ones with one "
+            "mapping object referenced from several places (as YAML aliases load); thorough adds all pairs of "
             "dicts with <=3 nodes over 2 keys; non-trivial = both arguments non-empty and at least one key collision")
     assumptions = ["dict iteration order and isinstance(…, dict) are CPython's; atoms are opaque in the model"]
 
@@ -39,6 +40,15 @@ class C17(Prop):
         depth = rng.randint(0, 5)
         a: Any = gen_dict(rng, depth)
         b: Any = gen_overlapping(rng, a, depth) if rng.random() < 0.8 else gen_dict(rng, depth)
+        share = False
+        dict_keys = [k for k, v in a.items() if isinstance(v, dict)]
+        if len(dict_keys) >= 2 and rng.random() < 0.3:
+            # one mapping referenced from several places of the overrides (what a YAML alias loads as), each colliding
+            # with a different mapping of the original
+            shared = gen_dict(rng, max(0, depth - 1)) or {"lvl": 1}
+            for k in rng.sample(dict_keys, rng.randint(2, len(dict_keys))):
+                b[k] = copy.deepcopy(shared)
+            share = True
         r = rng.random()
         if r < 0.04:
             a = None
@@ -46,7 +56,10 @@ class C17(Prop):
             b = None
         elif r < 0.1:
             a = b = None
-        return {"kind": "merge", "a": None if a is None else to_cfg(a), "b": None if b is None else to_cfg(b)}
+        case = {"kind": "merge", "a": None if a is None else to_cfg(a), "b": None if b is None else to_cfg(b)}
+        if share and a is not None and b is not None:
+            case["share"] = True
+        return case
 
     def exhaustive(self, tier: str):
         if tier != "thorough":
@@ -59,6 +72,8 @@ class C17(Prop):
 
         a = None if case["a"] is None else from_cfg(case["a"])
         b = None if case["b"] is None else from_cfg(case["b"])
+        if case.get("share"):
+            a, b = _alias(a), _alias(b)     # equal mappings inside one argument become one object
         a0, b0 = copy.deepcopy(a), copy.deepcopy(b)
         res = merge_config(a, b)
         return {
@@ -107,6 +122,8 @@ class C17(Prop):
         f.append(f"depth_{max(depth_of(from_cfg(case['a'])), depth_of(from_cfg(case['b'])))}")
         if any("." in k for k in list(a) + list(b)):
             f.append("dotted_key")
+        if case.get("share"):
+            f.append("aliased_mapping")
         return f
 
     def shrink(self, case) -> Iterator[dict[str, Any]]:
@@ -115,6 +132,22 @@ class C17(Prop):
             if c is None:
                 continue
             yield from ({**case, side: s} for s in _shrink_cfg(c))
+
+
+def _alias(x: Any, seen: list[Any] | None = None) -> Any:
+    """The same value with equal (non-empty) dict subtrees replaced by one shared object."""
+    seen = [] if seen is None else seen
+    if not isinstance(x, dict):
+        return x
+    for k, v in list(x.items()):
+        if isinstance(v, dict) and v:
+            first = next((o for o in seen if o == v and _same_types(o, v)), None)
+            if first is not None:
+                x[k] = first
+            else:
+                seen.append(v)
+                _alias(v, seen)
+    return x
 
 
 def _same_types(x: Any, y: Any) -> bool:
